@@ -89,9 +89,9 @@ def run(pid, tier):
     mc_states = mc_trans = 0
     mc_cov = {}
     for w in range(1, nworlds + 1):
-        cfg = os.path.join(common.SPEC, 'MCInsertion_run.cfg')
+        cfg = os.path.join(common.SPEC, 'MCInsertion_run_%s.cfg' % pid)
         open(cfg, 'w').write('SPECIFICATION Spec\nCONSTANTS\n  WorldIx = %d\n  MaxLen = %d\nINVARIANT GatedImpliesFeasible\nINVARIANT Exactness\nCHECK_DEADLOCK FALSE\n' % (w, maxlen + 1))
-        res = common.tlc('MCInsertion', cfg='MCInsertion_run.cfg', env={'EXTRAWORLDS': fx}, workers=2, name=pid + '-mc', timeout=1800, coverage=(w == 1))
+        res = common.tlc('MCInsertion', cfg='MCInsertion_run_%s.cfg' % pid, env={'EXTRAWORLDS': fx}, workers=2, name=pid + '-mc', timeout=1800, coverage=(w == 1))
         if res.invariant_violated or res.rc != 0:
             raise ToolError('model MCInsertion violates %s in world %d (the transcription of the evaluator or the simulation is wrong): see work/tlc-%s-mc.log' % (res.invariant_violated, w, pid))
         mc_states += res.distinct; mc_trans += res.generated
